@@ -388,6 +388,21 @@ def d6_9(ctx):
         (pc, "PCCC_ASCII", "PCCC_ASCII.encode(v)", "ab", b"ba"), (pc, "PCCC_STRING", "PCCC_STRING.encode(v)", "abcd", b"\x04\x00badc"),
         (pc, "PCCC_STRING", "PCCC_STRING.encode(v)", "ab" * 41, b"\x52\x00" + b"ba" * 41),  # a full element: 2 + 82 bytes, more data may follow
     ]
+    # a bit string of any other length than the type's is refused, whatever the bools are (too short, too long with only low bits set,
+    # a multiple of 8 that is not the width, empty)
+    for cname, n in (("BYTE", 8), ("WORD", 16), ("DWORD", 32), ("LWORD", 64)):
+        for label, value in ((f"{n - 8} bools", [True] * (n - 8)), (f"{n + 8} bools, only bit 0 set", [True] + [False] * (n + 7)), (f"{n + 8} bools, all clear", [False] * (n + 8)), (f"{n - 1} bools", [False] * (n - 1)), (f"{n + 1} bools", [False] * (n + 1)), ("no bools", [])):
+            key = ckey(f"{dt.name}:{cname}", f"witness:refused:{label}")
+            it = Interp(ctx, dt)
+            try:
+                got = it.ev(_ast.parse(f"{cname}.encode(v)", mode="eval").body, {"v": list(value)})
+                ctx.violation(key, ctx.model.cls(f"{dt.name}:{cname}").node, f"{cname}.encode of {label} returns {bytes(got).hex() if isinstance(got, (bytes, bytearray)) else got!r} instead of raising DataError: a value outside the type's domain is encoded silently")
+            except _Raise as r:
+                ctx.check(r.name == "DataError", key, ctx.model.cls(f"{dt.name}:{cname}").node, f"{cname}.encode of {label} is refused with DataError", f"{cname}.encode of {label} raises {r.name} instead of DataError")
+            except _Unknown as u:
+                ctx.undecided(key, dt.tree, f"{cname}.encode not foldable on {label}: {u.why}")
+            except (ArithmeticError, TypeError, ValueError, KeyError, IndexError, AttributeError) as err:
+                ctx.violation(key, ctx.model.cls(f"{dt.name}:{cname}").node, f"{cname}.encode of {label} raises {type(err).__name__} instead of DataError")
     for mod, cname, expr, value, wire in cases:
         key = ckey(f"{mod.name}:{cname}", f"witness:{expr}:{value if not isinstance(value, list) else ''.join('1' if b else '0' for b in value)}")
         it = Interp(ctx, mod)
@@ -422,3 +437,8 @@ def d6_9(ctx):
         ci = ctx.model.cls(f"{mod.name}:{cname}")
         ctx.check(enc_ok and dec_ok and pos_ok, key, ci.node, f"{expr} <-> {wire.hex()}",
                   f"{expr} with v={value!r}: encode -> {enc_note} (wire format {wire.hex()}); decode({wire.hex()}) -> {dec_note}" + ("" if pos_ok else f"; decode consumed {stream.pos} of {len(wire)} bytes"), witness=expr)
+
+
+# "outside the domain -> DataError, never silent": the refusals among the string / bit-string witnesses (a bit string of another length
+# than the type's) are obligations of C08 too
+rule("C08", "D8.12", "T-WITNESS", floor=15)(d6_9)
